@@ -547,6 +547,8 @@ class FileRef:
             return "ok"
         if op == "fds":
             return "n=%d" % sum(1 for o in self.objs.values() if o is not None)      # one descriptor per open File, nothing else
+        if op == "procread":
+            return "b=1"        # a text-mode read() of a file that reports a smaller size than it has returns the whole content
         if op == "fsize":
             return "n=%d" % len(self.files[t[2]]) if t[2] in self.files else "!NotFound"
         if op == "cat":
@@ -924,6 +926,7 @@ def gen_file_cases(rng, tier):
     cases += [gen_roundtrip(rng, 5000) for _ in range(nrt)]
     cases += [gen_history(rng, rng.pick([0, 1, 7, 40, 300, 5000])) for _ in range(nh)]
     cases += [gen_errors(rng) for _ in range(ne)]
+    cases += [["file root @", "file procread"]]
     # large contents
     sizes = [1 << 16, (1 << 18) + 3] if tier == "quick" else [1 << 16, (1 << 20) + 1, (1 << 21) + 12345, 1 << 22, (1 << 22) - 1]
     for n in sizes:
@@ -1052,16 +1055,18 @@ def run_model(cases, tag):
     """model outputs; `<tag> fds` (descriptors still open) is a question to the process, not to the model: the line is not sent
     and the oracle's answer is put in its place"""
     q = IMPL_ONLY.get(tag)
+    # `file procread` is a question about the machine's procfs: like `fds` it is answered by the oracle on the model's behalf
+    qs = {q, "file procread"} if tag == "file" else {q}
     if tag == "file":
         cases = [dealias_case(c) for c in cases]
-    stripped = [[l for l in c if l != q] for c in cases]
+    stripped = [[l for l in c if l not in qs] for c in cases]
     outs = seqtie.run_stream(None, stripped, tag + " reset", is_driver=True, timeout=HARNESS_TIMEOUT)
-    if not any(q in c for c in cases):
+    if not any(l in qs for c in cases for l in c):
         return outs
     res = []
     expected = fs_expected if tag == "ps" else file_expected
     for c, o in zip(cases, outs):
-        if q not in c:
+        if not any(l in qs for l in c):
             res.append(o)
             continue
         try:
@@ -1071,7 +1076,7 @@ def run_model(cases, tag):
         it = iter(o)
         row = []
         for i, l in enumerate(c):
-            if l == q:
+            if l in qs:
                 row.append(e[i] if e is not None else "n=0")
             else:
                 row.append(next(it, "<missing>"))
